@@ -1,6 +1,7 @@
 (* C09: what reconcile.rs does to the names a type mentions, inside dom_C09 (single crate, no
-   imports): a Simple id that is the Rust name of a typeshared item becomes that item's renamed id,
-   everything else is unchanged; items keep their ids, generics, variants. *)
+   imports): an id - of a Simple or of a Generic, in a struct, an enum, an alias or a const - that is the
+   Rust name of a typeshared item becomes that item's renamed id, everything else is unchanged; items keep
+   their ids, generics, variants. *)
 From Coq Require Import List Bool String Permutation.
 From TS Require Import Model.Str Model.Outcome Model.Types Model.Parse Model.Reconcile Model.Lang.Decl Spec.C09Spec.
 From TS Require Import Proofs.SortLemmas Proofs.C09Common.
@@ -25,6 +26,8 @@ Definition c09_re (rn : renames) (e : renum) : renum :=
 Definition c09_ra (rn : renames) (a : ralias) : ralias :=
   {| aid := aid a; agenerics := agenerics a; atype := check_type [] rn [] (atype a);
      acomments := acomments a; adecs := adecs a; aredacted := aredacted a |}.
+
+Definition c09_rc (rn : renames) (c : rconst) : rconst := check_const [] rn [] c.
 
 Lemma c09_stable_sort_in {A} (key : A -> str) l x : In x (stable_sort key l) <-> In x l.
 Proof.
@@ -54,8 +57,11 @@ Proof.
   unfold pd', c09_reconciled, reconcile_crate. cbn [p_aliases]. rewrite c09_stable_sort_in, in_map_iff. rewrite Himp.
   split; intros (a & A & B); exists a; (split; [|]); auto.
 Qed.
-Lemma c09_consts' c : In c (p_consts pd') <-> In c (p_consts pd).
-Proof. unfold pd', c09_reconciled, reconcile_crate. cbn [p_consts]. apply c09_stable_sort_in. Qed.
+Lemma c09_consts' c' : In c' (p_consts pd') <-> exists c, In c (p_consts pd) /\ c' = c09_rc rn c.
+Proof.
+  unfold pd', c09_reconciled, reconcile_crate. cbn [p_consts]. rewrite c09_stable_sort_in, in_map_iff. rewrite Himp.
+  split; intros (c & A & B); exists c; (split; [|]); auto.
+Qed.
 
 (* ---- the rename map ---- *)
 Lemma c09_rn_in o c r : In (o, c, r) rn ->
@@ -117,7 +123,7 @@ Proof.
   rewrite forallb_forall in H. specialize (H e He). unfold c09_id_wf in H. rewrite V in H. cbn in H. apply str_eqb_eq in H. exact H.
 Qed.
 
-(* reconcile.rs:169 resolve_renamed on a Simple id, no imports *)
+(* reconcile.rs:169 resolve_renamed on the id of a Simple or a Generic, no imports *)
 Definition c09_resolved (i : str) : str :=
   match resolve_renamed [] rn [] i with Some r => r | None => i end.
 
@@ -157,7 +163,7 @@ Qed.
 
 (* the names a reconciled type mentions *)
 Lemma c09_check_type_ids t form i' : In (form, i') (c09_type_ids (check_type [] rn [] t)) ->
-  exists i, In (form, i) (c09_type_ids t) /\ i' = match form with C9Simple => c09_resolved i | C9Generic => i end.
+  exists i, In (form, i) (c09_type_ids t) /\ i' = c09_resolved i.
 Proof.
   revert form i'. induction t using rtype_ind'; intros form i' Hin; cbn [check_type c09_type_ids] in *.
   - unfold c09_resolved. destruct (resolve_renamed [] rn [] id) eqn:R; cbn [c09_type_ids] in Hin; destruct Hin as [Hin|[]]; injection Hin as <- <-;
@@ -184,26 +190,20 @@ Qed.
    untouched generic parameter of the owner, or the table's spelling of a typeshared item *)
 Lemma c09_mention tp form i' :
   In tp (c09_tposs pd) ->
-  In (form, i') (c09_type_ids (match c9t_pos tp with C9Const => c9t_type tp | _ => check_type [] rn [] (c9t_type tp) end)) ->
+  In (form, i') (c09_type_ids (check_type [] rn [] (c9t_type tp))) ->
   (In i' (c9t_generics tp) /\ In (form, i') (c09_type_ids (c9t_type tp))) \/
   (exists i e, In (form, i) (c09_type_ids (c9t_type tp)) /\ c09_lookup pd i = Some e /\
                i' = c09_pick (c09_type_ref_which form (c9t_pos tp)) (c9e_id e)).
 Proof.
   intros Htp Hin. pose proof (c09_resolves_tp tp Htp) as Hr. unfold c09_resolves in Hr. rewrite forallb_forall in Hr.
-  assert (exists i, In (form, i) (c09_type_ids (c9t_type tp)) /\
-                    i' = match form, c9t_pos tp with C9Simple, C9Const => i | C9Simple, _ => c09_resolved i | C9Generic, _ => i end) as (i & Hi & E).
-  { destruct (c9t_pos tp); try (destruct (c09_check_type_ids _ _ _ Hin) as (i & Hi & E); exists i; split; [exact Hi|destruct form; exact E]).
-    exists i'. split; [exact Hin|destruct form; reflexivity]. }
+  destruct (c09_check_type_ids _ _ _ Hin) as (i & Hi & E).
   specialize (Hr (form, i) Hi). cbn beta iota in Hr.
   destruct (c09_lookup pd i) as [e|] eqn:Hlk.
   - right. exists i, e. repeat split; try assumption.
-    destruct (c09_lookup_in pd i e Hlk) as (_ & Ho & _).
-    destruct form; cbn [c09_type_ref_which c09_pick].
-    + destruct (c9t_pos tp); cbn [c09_pick]; try (rewrite E; apply c09_resolved_item; exact Hlk). congruence.
-    + destruct (c9t_pos tp); cbn [c09_pick]; congruence.
+    unfold c09_type_ref_which. cbn [c09_pick]. rewrite E. apply c09_resolved_item. exact Hlk.
   - left. destruct form.
     + rewrite orb_false_r in Hr. apply c09_mem_str_in in Hr.
-      assert (i' = i) as -> by (destruct (c9t_pos tp); try (rewrite E; apply c09_resolved_other; exact Hlk); exact E). split; assumption.
+      assert (i' = i) as -> by (rewrite E; apply c09_resolved_other; exact Hlk). split; assumption.
     + rewrite andb_false_r in Hr. discriminate.
 Qed.
 End Recon.
